@@ -29,9 +29,19 @@ type Violation struct {
 	Path   []string `json:"path"`
 	// Tags are structural facts about the witness that known-finding predicates match on.
 	Tags map[string]string `json:"tags,omitempty"`
+	// History is the complete ordered record of what the world that found the violation executed
+	// before it (see history.go); only the first violation of a report carries one. It is the
+	// fallback witness when the path alone does not reproduce on a fresh world (state held in
+	// process memory of the code under test).
+	History []string `json:"-"`
+	hw      int      // world (worker) that found it
+	hn      int      // length of that world's log at the time
 }
 
 func (v *Violation) String() string {
+	if len(v.Path) > 0 && v.Path[0] == HistoryMarker {
+		return fmt.Sprintf("[%s] %s  witness=the complete history of one exploring world (%d engine calls, in the replay file); path inside it=%s", v.Clause, v.Msg, len(v.Path)-1, v.Tags["path-inside-history"])
+	}
 	return fmt.Sprintf("[%s] %s  path=%s", v.Clause, v.Msg, strings.Join(v.Path, " ; "))
 }
 
@@ -141,6 +151,7 @@ type explorer[S any] struct {
 	knownW   map[string]*Violation
 	samples  [][]string
 	tick     atomic.Int64
+	logs     []*worldLog // one per world; shared by all iterations
 }
 
 func letterClass(name string) string {
@@ -162,8 +173,9 @@ func (e *explorer[S]) record(path []string, l Letter, outcome string) {
 }
 
 // report a violation; returns true if it is a known finding (path is cut either way).
-func (e *explorer[S]) violation(v *Violation, path []string) {
+func (e *explorer[S]) violation(v *Violation, path []string, w int) {
 	v.Path = append([]string{}, path...)
+	v.hw, v.hn = w, e.logs[w].mark()
 	if e.opt.Known != nil {
 		if id, ok := e.opt.Known(v); ok {
 			e.mu.Lock()
@@ -209,16 +221,20 @@ func (e *explorer[S]) expired() bool {
 }
 
 // dfs explores below s. path is the letter-name path leading to s.
-func (e *explorer[S]) dfs(s S, rem int, path []string) {
+// w is the world the state lives in and id the log entry that created it (-1: the root).
+func (e *explorer[S]) dfs(s S, rem int, path []string, w int, id int32) {
 	if e.expired() {
 		return
 	}
+	lg := e.logs[w]
 	if !e.opt.NoTable {
+		lg.add('D', id, "")
 		h := e.sys.Digest(s)
 		first, expand := e.tab.visit(h, rem)
 		if first {
+			lg.add('C', id, "")
 			if v := e.sys.Check(s); v != nil {
-				e.violation(v, path)
+				e.violation(v, path, w)
 				return
 			}
 		}
@@ -226,37 +242,42 @@ func (e *explorer[S]) dfs(s S, rem int, path []string) {
 			return
 		}
 	} else {
+		lg.add('C', id, "")
 		if v := e.sys.Check(s); v != nil {
-			e.violation(v, path)
+			e.violation(v, path, w)
 			return
 		}
 	}
 	if rem == 0 {
 		return
 	}
+	lg.add('L', id, "")
 	for _, l := range e.sys.Letters(s) {
 		if e.aborted.Load() {
 			return
 		}
+		cid := lg.add('S', id, l.Name)
 		child, outcome, v := e.sys.Step(s, l)
 		e.trans.Add(1)
 		np := append(path, l.Name)
 		e.record(np, l, outcome)
 		if v != nil {
 			if !strings.HasPrefix(v.Clause, "cut:") { // "cut:" = path deliberately stopped, not a violation
-				e.violation(v, np)
+				e.violation(v, np, w)
 			}
 			continue
 		}
-		e.dfs(child, rem-1, np)
+		e.dfs(child, rem-1, np, w, cid)
 	}
 }
 
 // replayPrefix walks names from the root of a fresh world; returns the reached state.
-func replayPrefix[S any](sys Sys[S], root S, names []string) (S, error) {
+func replayPrefix[S any](sys Sys[S], root S, names []string, lg *worldLog) (S, int32, error) {
 	s := root
+	id := int32(-1)
 	for i, n := range names {
 		var found *Letter
+		lg.add('L', id, "")
 		ls := sys.Letters(s)
 		for j := range ls {
 			if ls[j].Name == n {
@@ -266,12 +287,13 @@ func replayPrefix[S any](sys Sys[S], root S, names []string) (S, error) {
 		}
 		if found == nil {
 			var zero S
-			return zero, fmt.Errorf("replay divergence at step %d: letter %q not offered", i, n)
+			return zero, -1, fmt.Errorf("replay divergence at step %d: letter %q not offered", i, n)
 		}
+		id = lg.add('S', id, n)
 		child, _, _ := sys.Step(s, *found)
 		s = child
 	}
-	return s, nil
+	return s, id, nil
 }
 
 // Explore runs iterative deepening to opt.MaxDepth.
@@ -305,9 +327,13 @@ func Explore[S any](sys Sys[S], opt Options) (*Report, error) {
 		}
 	}
 
+	logs := make([]*worldLog, opt.Workers)
+	for w := range logs {
+		logs[w] = &worldLog{}
+	}
 	var lastOutcomes map[string]int
 	for depth := 1; depth <= opt.MaxDepth; depth++ {
-		e := &explorer[S]{sys: sys, opt: opt, tab: tab, outcomes: map[string]int{}, known: map[string]int{}, knownW: map[string]*Violation{}}
+		e := &explorer[S]{sys: sys, opt: opt, tab: tab, outcomes: map[string]int{}, known: map[string]int{}, knownW: map[string]*Violation{}, logs: logs}
 		if opt.NoTable {
 			e.tab = newTable()
 		}
@@ -318,43 +344,51 @@ func Explore[S any](sys Sys[S], opt Options) (*Report, error) {
 		if k > depth {
 			k = depth
 		}
-		var gen func(s S, rem int, lvl int, path []string)
-		gen = func(s S, rem int, lvl int, path []string) {
+		var gen func(s S, rem int, lvl int, path []string, id int32)
+		gen = func(s S, rem int, lvl int, path []string, id int32) {
 			if lvl == k {
 				tasks = append(tasks, task{append([]string{}, path...)})
 				return
 			}
+			lg := logs[0]
 			if !opt.NoTable {
+				lg.add('D', id, "")
 				h := sys.Digest(s)
 				first, expand := e.tab.visit(h, rem)
 				if first {
+					lg.add('C', id, "")
 					if v := sys.Check(s); v != nil {
-						e.violation(v, path)
+						e.violation(v, path, 0)
 						return
 					}
 				}
 				if !expand {
 					return
 				}
-			} else if v := sys.Check(s); v != nil {
-				e.violation(v, path)
-				return
+			} else {
+				lg.add('C', id, "")
+				if v := sys.Check(s); v != nil {
+					e.violation(v, path, 0)
+					return
+				}
 			}
+			lg.add('L', id, "")
 			for _, l := range sys.Letters(s) {
+				cid := lg.add('S', id, l.Name)
 				child, outcome, v := sys.Step(s, l)
 				e.trans.Add(1)
 				np := append(append([]string{}, path...), l.Name)
 				e.record(np, l, outcome)
 				if v != nil {
 					if !strings.HasPrefix(v.Clause, "cut:") {
-						e.violation(v, np)
+						e.violation(v, np, 0)
 					}
 					continue
 				}
-				gen(child, rem-1, lvl+1, np)
+				gen(child, rem-1, lvl+1, np, cid)
 			}
 		}
-		gen(roots[0], depth, 0, nil)
+		gen(roots[0], depth, 0, nil, -1)
 
 		var next atomic.Int64
 		var errMu sync.Mutex
@@ -368,7 +402,7 @@ func Explore[S any](sys Sys[S], opt Options) (*Report, error) {
 					if i >= len(tasks) || e.aborted.Load() {
 						return
 					}
-					s, err := replayPrefix(sys, roots[w], tasks[i].names)
+					s, id, err := replayPrefix(sys, roots[w], tasks[i].names, logs[w])
 					if err != nil {
 						errMu.Lock()
 						if firstErr == nil {
@@ -378,7 +412,7 @@ func Explore[S any](sys Sys[S], opt Options) (*Report, error) {
 						e.aborted.Store(true)
 						return
 					}
-					e.dfs(s, depth-k, append([]string{}, tasks[i].names...))
+					e.dfs(s, depth-k, append([]string{}, tasks[i].names...), w, id)
 				}
 			}(w)
 		}
@@ -404,6 +438,7 @@ func Explore[S any](sys Sys[S], opt Options) (*Report, error) {
 		if len(e.viol) > 0 {
 			sort.Slice(e.viol, func(i, j int) bool { return lessPath(e.viol[i].Path, e.viol[j].Path) })
 			rep.Violations = e.viol
+			e.viol[0].History = logs[e.viol[0].hw].encode(e.viol[0].hn)
 			rep.States = e.tab.size()
 			if complete {
 				rep.CompletedDepth = depth
@@ -441,6 +476,9 @@ func Explore[S any](sys Sys[S], opt Options) (*Report, error) {
 // Replay walks a path of letter names on a fresh world and returns the first violation on it
 // (from Step or Check), with the outcome of every step. It does not use the explorer.
 func Replay[S any](sys Sys[S], names []string) (outcomes []string, v *Violation, err error) {
+	if len(names) > 0 && names[0] == HistoryMarker {
+		return replayHistory(sys, names[1:])
+	}
 	s := sys.Root()
 	if v := sys.Check(s); v != nil {
 		v.Path = nil
